@@ -531,7 +531,7 @@ func enumerate(e *env, r *mc.Run) []Case {
 			cases = append(cases, Case{rt, "uploadId", s, "servehttp"})
 		}
 	}
-	cs := seqs(copySegs, maxLen+1)
+	cs := seqs(copySegs, r.Pick(2, 4))
 	for _, rt := range copyRoutes {
 		for _, s := range cs {
 			cases = append(cases, Case{rt, "copy-source", s, "servehttp"})
